@@ -186,20 +186,23 @@ def run(check):
 
   # ------------------------------------------------------------------ zeroing the lag really switches the lag filter off
   r_lg = check.rule('R-C04-lag-off', 1, 'with MIN_TIMESTAMP_LAG = 0 (installed by the shutdown trigger) no strategy holds metrics back')
-  from .c17 import lag_filter_guard
+  from .c17 import lag_conditions
   base = repo.cls('carbon.cache', 'DrainStrategy')
   seen_filter = False
   for sc in repo.subclasses(base):
     for f in sc.module.all_functions():
-      if f.cls is sc and 'MIN_TIMESTAMP_LAG' in unparse(f.node) and not isinstance(f.node, ast.Lambda) and f.parent_fn is not None:
+      if f.cls is sc and 'MIN_TIMESTAMP_LAG' in unparse(f.node) and not isinstance(f.node, ast.Lambda):
+        conds = lag_conditions(f)
+        if not conds:
+          continue
         seen_filter = True
-        probs = lag_filter_guard(f)
+        probs = [n for n, _, guarded in conds if not guarded]
         if probs:
           r_lg.violate('%s keeps filtering at lag 0' % sc.name, f, probs[0], '%s applies its MIN_TIMESTAMP_LAG filter even when the lag is '
                        '0: at shutdown metrics whose oldest timestamp is not older than "now" are never drained and stay in the cache '
                        'when the writer exits' % sc.name)
         else:
-          r_lg.ok('%s: the lag filter is applied only `if settings.MIN_TIMESTAMP_LAG`' % sc.name, f.loc())
+          r_lg.ok('%s: the lag filter is off when settings.MIN_TIMESTAMP_LAG is 0' % sc.name, f.loc())
   if not seen_filter:
     r_lg.ok('no strategy filters by MIN_TIMESTAMP_LAG', 'lib/carbon/cache.py')
 
